@@ -4,9 +4,9 @@ from __future__ import annotations
 import ast
 
 from sa.cfg import CFG, edges_establishing
-from sa.model import Program, norm, walk_no_nested
+from sa.model import Program, alpha, norm, walk_no_nested
 from sa.report import Results
-from sa.tables.reviewed import witness_scope_creation_guard
+from sa.tables.reviewed import scope_creation_parts, witness_scope_creation_guard
 from sa.util import callee, exc_name
 
 
@@ -62,28 +62,42 @@ def run(prog: Program) -> Results:
                     f"selectors and re-wrapping would address a different let layer")
 
     # (a) to_scoped_expression: value's previous own layer first, then its stack; own bindings become `scope`
-    own_then_stack(tse, "scope_stack", lambda n: True, lambda n: "stack" in _stmt_text(n) and ".append(layer)" not in _stmt_text(n), "to_scoped_expression")
+    stack_kw = next((k.value.id for c in ast.walk(tse.node) if isinstance(c, ast.Call) and callee(c) == "ScopeState"
+                     for k in c.keywords if k.arg == "stack" and isinstance(k.value, ast.Name)), None)
+    if stack_kw is None:
+        res.unclass("to_scoped_expression: `ScopeState(stack=<list>)` not found")
+        stack_kw = "scope_stack"
+    own_then_stack(tse, stack_kw, lambda n: True, lambda n: "stack" in _stmt_text(n).split("(", 1)[1] and _stmt_text(n).startswith(f"{stack_kw}.extend("), "to_scoped_expression")
     txt = norm(tse.node)
     r1.instances += 1
-    ok = "'scope': list(self.local_variables)" in txt and "stack=scope_stack" in txt
+    ok = "'scope': list(self.local_variables)" in txt and f"stack={stack_kw}" in txt
     r1.ob(ok, {"site": tse.key, "own_bindings_become": "scope", "previous_layers_become": "stack"})
     if not ok:
         res.add("R-C09-1", (tse.key, "lifting"), tse.loc(),
                 "to_scoped_expression does not lift the let's own bindings into `scope` and the body's previous layers into `stack`")
     # (b) rebuild_scoped
-    own_then_stack(rbs, "layers", lambda n: True, lambda n: "stack" in _stmt_text(n), "rebuild_scoped")
-    loops = [n for n in walk_no_nested(rbs.node) if isinstance(n, ast.For)]
+    loops = [n for n in walk_no_nested(rbs.node) if isinstance(n, ast.For) and norm(n.iter).startswith("enumerate(reversed(")]
+    rb_layers = norm(loops[0].iter)[len("enumerate(reversed("):-2] if loops else "layers"
+    own_then_stack(rbs, rb_layers, lambda n: True, lambda n: "stack" in _stmt_text(n), "rebuild_scoped")
     r1.instances += 1
-    ok = any(norm(l.iter) == "enumerate(reversed(layers))" for l in loops) and "is_outer = index == total_layers - 1" in norm(rbs.node) \
-        and "before=self.before if is_outer else []" in norm(rbs.node) and "after=self.after if is_outer else []" in norm(rbs.node)
+    an = alpha(rbs.node, rbs.node, anonymous=True)
+    ok = bool(loops) and "$ = $ == $ - 1" in an and "before=self.before if $ else []" in an and "after=self.after if $ else []" in an
     r1.ob(ok, {"site": rbs.key, "wrap": "reversed(layers), outer trivia on last"})
     if not ok:
         res.add("R-C09-1", (rbs.key, "wrapping order"), rbs.loc(),
                 "rebuild_scoped does not wrap layers innermost-first (`reversed(layers)`) with the node's own trivia on the outermost let")
     # (c) _collect_scope_layers
-    own_then_stack(csl, "layers", lambda n: "layer_dict" not in _stmt_text(n) and "stacked" not in _stmt_text(n), lambda n: False, "_collect_scope_layers")
+    c_layers = next((norm(n.value) for n in csl.node.body if isinstance(n, ast.Return) and isinstance(n.value, ast.Name)), "layers")
+    csl_cfg = CFG(csl.node)
+    in_loop = {id(x) for lp in ast.walk(csl.node) if isinstance(lp, ast.For) for x in ast.walk(lp)}
+    own_then_stack(csl, c_layers, lambda n: id(n.ast) not in in_loop, lambda n: False, "_collect_scope_layers")
     # (d) selector indexing
-    for f, want in ((sv, {"layers[-depth]"}), (rv, {"len(layers) - depth"})):
+    for f, pat in ((sv, "{l}[-{d}]"), (rv, "len({l}) - {d}")):
+        l_, d_, _t = scope_creation_parts(f.node)
+        if not (l_ and d_):
+            res.unclass(f"{f.key}: layer list / selector depth variables not found (via _collect_scope_layers / _split_scope_npath)")
+            continue
+        want = {pat.format(l=l_, d=d_)}
         r1.instances += 1
         t = norm(f.node)
         ok = any(w in t for w in want)
@@ -94,7 +108,9 @@ def run(prog: Program) -> Results:
     # (e) _write_scope_layers
     r1.instances += 1
     t = norm(wsl.node)
-    ok = ("outer = layers[0]" in t or "outer, *" in t) and ("for layer in layers[1:]" in t or "for layer in inner" in t) and "expr.scope = " in t
+    p0, p1 = wsl.params()[0], wsl.params()[1]
+    an = alpha(wsl.node, wsl.node, anonymous=True)
+    ok = (f"= {p1}[0]" in t or "($, *$) = $" in an) and (f"in {p1}[1:]" in t or "($, *$) = $" in an) and f"{p0}.scope = " in t
     r1.ob(ok, {"site": wsl.key, "first_layer": "scope", "rest": "stack"})
     if not ok:
         res.add("R-C09-1", (wsl.key, "write-back order"), wsl.loc(),
@@ -105,9 +121,13 @@ def run(prog: Program) -> Results:
                   "the same list with no resize in between", floor=3)
     for f in (sv, rv):
         cfg = CFG(f.node)
+        L, D, _t = scope_creation_parts(f.node)
+        if not (L and D):
+            continue
+        idx_vars = {norm(d.targets[0]) for d in ast.walk(f.node) if isinstance(d, ast.Assign) and norm(d.value) == f"len({L}) - {D}"}
 
-        def in_bounds(a, truth):
-            return (norm(a) == "depth > len(layers)" and truth is False) or (norm(a) == "depth <= len(layers)" and truth is True)
+        def in_bounds(a, truth, L=L, D=D):
+            return (norm(a) == f"{D} > len({L})" and truth is False) or (norm(a) == f"{D} <= len({L})" and truth is True)
 
         e = edges_establishing(cfg, in_bounds)
         guards = {t for t, _ in e}
@@ -116,7 +136,7 @@ def run(prog: Program) -> Results:
             if n.ast is None or n.kind == "def":
                 continue
             for s in ast.walk(n.ast) if n.kind != "for" else ast.walk(n.ast.iter):
-                if isinstance(s, ast.Subscript) and norm(s.value) == "layers" and ("depth" in norm(s.slice) or norm(s.slice) == "layer_index"):
+                if isinstance(s, ast.Subscript) and norm(s.value) == L and (D in norm(s.slice).replace("-", " ").split() or norm(s.slice) == f"-{D}" or norm(s.slice) in idx_vars):
                     uses.append((n, s))
         r2.instances += len(uses)
         if not uses:
@@ -132,15 +152,15 @@ def run(prog: Program) -> Results:
                     if m is n or m.ast is None:
                         continue
                     tx = norm(m.ast) if m.kind == "stmt" else ""
-                    if tx.startswith(("layers.append(", "layers.insert(", "layers.pop(", "del layers[", "layers.extend(", "layers.clear(")):
+                    if tx.startswith((f"{L}.append(", f"{L}.insert(", f"{L}.pop(", f"del {L}[", f"{L}.extend(", f"{L}.clear(")):
                         resized = True
             r2.ob(ok and not resized, {"site": f.key, "use": norm(s), "guarded": ok, "resized_between": resized})
             if not ok:
-                res.add("R-C09-2", (f.key, "unguarded selector index", norm(s)), f.loc(s),
-                        f"{f.key}: `{norm(s)}` is reachable without the `depth > len(layers)` check: Python's negative indexing "
+                res.add("R-C09-2", (f.key, "unguarded selector index", alpha(s, f.node)), f.loc(s),
+                        f"{f.key}: `{norm(s)}` is reachable without the `{D} > len({L})` check: Python's negative indexing "
                         f"would silently address a different layer")
             elif resized:
-                res.add("R-C09-2", (f.key, "resize between guard and index", norm(s)), f.loc(s),
+                res.add("R-C09-2", (f.key, "resize between guard and index", alpha(s, f.node)), f.loc(s),
                         f"{f.key}: the layer list is resized between the depth check and `{norm(s)}`")
         for t, lab in e:
             arm = [s_ for l, s_ in t.succ if l == (not lab)]
@@ -160,7 +180,12 @@ def run(prog: Program) -> Results:
                 "the layer-creation arm of set_value is not confined to `not layers and depth == 1` with exactly one appended layer: "
                 "a deeper selector on a document without that layer would create/modify instead of failing")
     rcfg = CFG(rv.node)
-    dels = [n for n in rcfg.nodes if isinstance(n.ast, ast.Delete) and any(norm(t.value) == "layers" for t in n.ast.targets if isinstance(t, ast.Subscript))]
+    RL, RD, _t = scope_creation_parts(rv.node)
+    RL = RL or "layers"
+    ridx = {norm(d.targets[0]) for d in ast.walk(rv.node) if isinstance(d, ast.Assign) and norm(d.value) == f"len({RL}) - {RD}"}
+    tlayer = {norm(d.targets[0]) for d in ast.walk(rv.node) if isinstance(d, ast.Assign) and isinstance(d.value, ast.Subscript)
+              and norm(d.value.value) == RL and norm(d.value.slice) in ridx}
+    dels = [n for n in rcfg.nodes if isinstance(n.ast, ast.Delete) and any(norm(t.value) == RL for t in n.ast.targets if isinstance(t, ast.Subscript))]
     r3.instances += len(dels)
     if len(dels) != 1:
         res.add("R-C09-3", (rv.key, "prune count"), rv.loc(), f"remove_value deletes from the layer list at {len(dels)} places (expected exactly one)")
@@ -168,10 +193,10 @@ def run(prog: Program) -> Results:
         idx = norm(d.ast.targets[0].slice)
 
         def empty_scope(a, truth):
-            return norm(a) in ("target_layer['scope']", "target_layer.get('scope')") and truth is False
+            return any(norm(a) in (f"{tl}['scope']", f"{tl}.get('scope')") for tl in tlayer) and truth is False
 
         e = edges_establishing(rcfg, empty_scope)
-        ok = idx == "layer_index" and bool(e) and rcfg.all_paths_pass(d, cut_edges=e) and "target_layer = layers[layer_index]" in norm(rv.node)
+        ok = idx in ridx and bool(e) and rcfg.all_paths_pass(d, cut_edges=e) and bool(tlayer)
         r3.ob(ok, {"site": rv.key, "prune": norm(d.ast), "guard": "not target_layer['scope']"})
         if not ok:
             res.add("R-C09-3", (rv.key, "prune guard"), rv.loc(d.ast),
